@@ -32,6 +32,11 @@ impl SighashCache {
         ensures r.is_ok() ==> (r->Ok_0)@ == sighash_p2wsh(old(self).tx(), idx as nat, *script, amount_sat(value), ty)
     { unimplemented!() }
 }
+impl PartialEq for SegwitV0Sighash { #[verifier::external_body] fn eq(&self, other: &Self) -> (r: bool) { unimplemented!() } }
+impl vstd::std_specs::cmp::PartialEqSpecImpl for SegwitV0Sighash {
+    open spec fn obeys_eq_spec() -> bool { true }
+    open spec fn eq_spec(&self, other: &Self) -> bool { self@ == other@ }
+}
 impl SegwitV0Sighash {
     pub uninterp spec fn view(&self) -> Seq<u8>;
     #[verifier::external_body]
